@@ -1324,6 +1324,83 @@ def run_server(ctx, cases, meta, rsa_cache):
                 meta.append(('server/derive-finish', pj(pdesc), nbytes, o))
             else:
                 viol(ctx, 'DeriveKey', 'unexpected outcome ' + o, pdesc, {'message': it['message']})
+        # ---------------- DeriveKey: which object is the key and where the derivation data comes from
+        # 1, 2, 3 identifiers, every (SymmetricKey | SecretData) combination, derivation data explicit in the parameters vs
+        # absent (then: the value of the first LATER SecretData, else none), every method.  Reference: key = FIRST object.
+        pool = {}
+        for kind in 'KS':
+            for pos in range(3):
+                val = rbytes(rng, 16)
+                if kind == 'K':
+                    uid_ = reg_sym(A.AES, val, allmask)
+                else:
+                    o_, it_, _ = req(kdrv.register(otype=enums.ObjectType.SECRET_DATA,
+                                                   secret=kdrv.secret_for(enums.ObjectType.SECRET_DATA, val), mask=allmask))
+                    uid_ = kdrv.first_uid(it_) if o_ == 'done' else None
+                    if uid_:
+                        req(kdrv.activate(uid_))
+                pool[(kind, pos)] = (uid_, val)
+        if all(u for u, _ in pool.values()):
+            combos = [c for n in (1, 2, 3) for c in itertools.product('KS', repeat=n)]
+            hsel = [H.SHA_256, H.SHA_1, H.SHA_512]
+            for ci, combo in enumerate(combos):
+                objs = [pool[(kind, pos)] for pos, kind in enumerate(combo)]
+                ids = [u for u, _ in objs]
+                key0 = objs[0][1]
+                later = [v for (u, v), kind in list(zip(objs, combo))[1:] if kind == 'S']
+                for explicit in (True, False):
+                    given = rbytes(rng, 20) if explicit else None
+                    data = given if explicit else (later[0] if later else None)
+                    for mi, method in enumerate((D.HMAC, D.NIST800_108_C, D.ENCRYPT, D.HASH, D.PBKDF2)):
+                        h = hsel[(ci + mi) % 3]
+                        hid = HASH_ID[h.name]
+                        salt = rbytes(rng, 8)
+                        iv = rbytes(rng, 16)
+                        nbytes = 16
+                        if method == D.ENCRYPT:
+                            cpar = kdrv.crypto_params(cryptographic_algorithm=A.AES, block_cipher_mode=M.CBC, padding_method=P.PKCS5)
+                            dpar = ca.DerivationParameters(cryptographic_parameters=cpar, initialization_vector=iv, derivation_data=given)
+                            want = None if data is None else ref_encrypt(dict(alg=A.AES, key=key0, mode=M.CBC, pad=P.PKCS5, aad=None), iv, data)[0][:nbytes]
+                        else:
+                            dpar = ca.DerivationParameters(cryptographic_parameters=kdrv.crypto_params(hashing_algorithm=h),
+                                                           derivation_data=given,
+                                                           salt=salt if method in (D.PBKDF2, D.HMAC) else None,
+                                                           iteration_count=2 if method == D.PBKDF2 else None)
+                            if method == D.HASH:
+                                want = None if data is not None else R.digest(hid, key0)[:nbytes]     # key and data both present: refused
+                            elif method == D.NIST800_108_C and data is None:
+                                want = None
+                            else:
+                                want = ref_derive(dict(method=method, len=nbytes, data=data, key=key0, salt=salt, iters=2), hid)[:nbytes]
+                        pdesc = dict(method=method, hash=h, identifiers=''.join(combo),
+                                     derivation_data='explicit' if explicit else ('later SecretData' if later else 'absent'))
+                        o, it, calls = req(kdrv.derive_key(ids, method, dpar, attrs=kdrv.sym_attrs(A.AES, nbytes * 8, [CM.ENCRYPT])))
+                        ctx.count('server.derive_ids.%s.%s' % (method.name, o.split(':')[0]))
+                        ctx.case_seen(('srv-derive-ids', pj(pdesc)))
+                        w = {'key_object_value': key0.hex(), 'object_values': [v.hex() for _, v in objs],
+                             'explicit_data': None if given is None else given.hex(), 'outcome': o, 'message': it['message']}
+                        if want is None:
+                            if o != 'IF':
+                                viol(ctx, 'DeriveKey', 'a derivation whose data is missing (or, for HASH, superfluous) was not refused as invalid field', pdesc, w)
+                            continue
+                        if o != 'done':
+                            viol(ctx, 'DeriveKey', 'a supported derivation failed: ' + o, pdesc, w)
+                            continue
+                        _, it2, _ = req(kdrv.get(kdrv.first_uid(it)))
+                        stored = hx(it2['payload']['secret']['key_block']['key_value']['key_material'])
+                        if stored != want:
+                            viol(ctx, 'DeriveKey', 'derived key differs from the reference over key = first object, data = explicit data or the first later SecretData', pdesc,
+                                 dict(w, got=stored.hex(), ref=want.hex()))
+                        # the base objects are only used
+                        for (u, v) in objs:
+                            _, itb, _ = req(kdrv.get(u))
+                            try:
+                                kb = itb['payload']['secret']['key_block']['key_value']['key_material']
+                            except Exception:
+                                kb = None
+                            if kb is None or hx(kb) != v:
+                                viol(ctx, 'Get', 'stored material of a derivation base object changed', pdesc, w)
+
         # ---------------- a key that is merely USED keeps computing what it claims (also inside batches, after a commit
         # by a later item of the same request, and after a restart of the engine on the same database)
         kU = rbytes(rng, 16)
